@@ -28,7 +28,7 @@ func builtinJSONParse(call FunctionCall) Value {
 	var root jsonValue
 	err := json.Unmarshal([]byte(call.Argument(0).string()), &root)
 	if err != nil {
-		panic(call.runtime.panicSyntaxError(err.Error()))
+		panic(call.runtime.panicSyntaxError("%s", err.Error()))
 	}
 	value, exists := builtinJSONParseWalk(ctx, root.value)
 	if !exists {
